@@ -403,4 +403,34 @@ def stage (spec : Spec) (ord : List Str → List Str) : Except Err XG :=
       | .error e => .error e
       | .ok s => .ok s.g
 
+/-! ### the same loop, keeping the whole staging state
+
+`stage` above is what the graph-level correspondence runs; `stageSS` returns the tables `_stage`
+leaves behind as well (`used_params`, `step_combos`, `workspaces`, `hub_depends`, `depends`), which
+the correspondence compares after every staging (`exp.tables`).  `Lemmas/ExpandComplete.lean` proves
+`stage = (·.g) <$> stageSS`. -/
+
+/-- one iteration of `for step in t_sorted`: the step filed under the `idx`-th name of the flow -/
+def stageIdx (spec : Spec) (ord : List Str → List Str) (flow : Flow) (acc : Except Err SS) (idx : Nat) :
+    Except Err SS :=
+  match acc with
+  | .error e => .error e
+  | .ok s =>
+    match flow.names[idx]? with
+    | none => .ok s
+    | some nm =>
+      if nm == SOURCE then .ok s
+      else match flow.steps.find? (·.1 == nm) with
+        | none => .ok s
+        | some (_, st) => stageStep spec ord s st
+
+/-- the loop of `stage`, returning the staging state it ends in -/
+def stageSS (spec : Spec) (ord : List Str → List Str) : Except Err SS :=
+  match buildFlow spec.steps with
+  | .error e => .error e
+  | .ok flow =>
+    match Dag.topoSort flow.dag with
+    | none => .error .recursion
+    | some order => order.foldl (stageIdx spec ord flow) (.ok (initSS spec.root))
+
 end MaestroVerif.Expand
